@@ -356,3 +356,82 @@ Proof.
   exact (H j ret rec Hin Hne).
 Qed.
 End Gen.
+
+(* ------------------------------------------------------------------ termination, whatever the memory does *)
+(* The bound on the work of one snapshot() call does not depend on the memory model at all: for ANY
+   load function and ANY fence function - whatever values the loads return - every access of the
+   reader program either ends the call or strictly decreases the measure of Shm/ReaderBound.v. *)
+From CB Require Import ReaderBound.
+
+Section AnyMemory.
+Variable V : Type.
+Variable rd : list event -> V -> loc -> ord -> option nat -> option (Z * nat * V).
+Variable fc : V -> ord -> V.
+Open Scope Z_scope.
+
+Theorem program_step_decreases c L (r : grst V) ch r' it :
+  budget_ok (g_pc r) -> todo_ok c (g_pc r) ->
+  gr_step rd fc c L r ch = Some (r', it, None) ->
+  0 <= mu c (g_pc r') < mu c (g_pc r) /\ budget_ok (g_pc r') /\ todo_ok c (g_pc r').
+Proof.
+  intros HB HT H. pose proof (iter_cost_pos c) as K. unfold gr_step in H.
+  destruct (g_pc r) as [| | g todo acc b | g acc b | g acc b] eqn:PC.
+  - destruct (rd L (g_view r) LVer (c_r_ver c) ch) as [[[ver p] v]|]; [|discriminate].
+    destruct (ver =? 0); inversion H; subst; cbn [g_pc mu budget_ok todo_ok].
+    pose proof (N2Z.is_nonneg (c_retries c)). split; [nia | auto].
+  - destruct (rd L (g_view r) LGen (c_r_g1 c) ch) as [[[g p] v]|]; [|discriminate].
+    destruct ((g =? 0) || (g =? g_cache_gen r) || Z.odd g); [discriminate|].
+    destruct (N.eqb_spec (c_retries c) 0) as [E|E]; [discriminate|].
+    inversion H; subst; cbn [g_pc mu budget_ok todo_ok]. unfold iter_cost in *.
+    assert (0 < Z.of_N (c_retries c)) by lia. split; [|split]; try lia; nia.
+  - destruct todo as [|i todo].
+    + inversion H; subst. cbn [budget_ok] in HB. pose proof (prod_nonneg c b HB).
+      destruct (c_r_fence c); cbn [g_pc mu budget_ok todo_ok length]; (split; [|split]); try exact I; try lia.
+    + destruct (rd L (g_view r) (LCell i) Rlx ch) as [[[x p] v]|]; [|discriminate].
+      inversion H; subst. cbn [budget_ok todo_ok length] in *. pose proof (prod_nonneg c b HB).
+      destruct todo as [|i' todo']; [destruct (c_r_fence c)|]; cbn [g_pc mu budget_ok todo_ok length] in *;
+        (split; [|split]); try exact I; try lia.
+  - cbn [budget_ok] in HB. pose proof (prod_nonneg c b HB).
+    destruct (c_r_fence c); inversion H; subst; cbn [g_pc mu budget_ok todo_ok]; (split; [|split]); try exact I; try lia.
+  - cbn [budget_ok] in HB.
+    destruct (rd L (g_view r) LGen (c_r_g2 c) ch) as [[[g2 p] v]|]; [|discriminate].
+    destruct (g2 =? g); [discriminate|].
+    destruct (N.eqb_spec (N.pred b) 0) as [E|E]; [discriminate|].
+    inversion H; subst; cbn [g_pc mu budget_ok todo_ok].
+    assert (HB' : (0 < N.pred b)%N) by lia. pose proof (prod_nonneg c (N.pred b) HB').
+    replace (Z.of_N b - 1) with ((Z.of_N (N.pred b) - 1) + 1) by lia.
+    rewrite Z.mul_add_distr_r, Z.mul_1_l. unfold iter_cost in *. split; [|split]; try lia.
+Qed.
+
+(* a call from the idle state has returned (or is refused a load) within the measure of RIdle *)
+Fixpoint program_call (c : cfg) (r : grst V) (inputs : list (list event * option nat)) : option (nat * rret * grst V) :=
+  match inputs with
+  | [] => None
+  | (L, ch) :: rest =>
+      match gr_step rd fc c L r ch with
+      | None => None
+      | Some (r', _, Some ret) => Some (1%nat, ret, r')
+      | Some (r', _, None) =>
+          match program_call c r' rest with
+          | Some (n, ret, r'') => Some (S n, ret, r'')
+          | None => None
+          end
+      end
+  end.
+
+Theorem program_call_bounded c : forall inputs (r : grst V) n ret r',
+  budget_ok (g_pc r) -> todo_ok c (g_pc r) ->
+  program_call c r inputs = Some (n, ret, r') -> Z.of_nat n <= mu c (g_pc r).
+Proof.
+  induction inputs as [|[L ch] rest IH]; intros r n ret r' HB HT H; cbn [program_call] in H; [discriminate|].
+  destruct (gr_step rd fc c L r ch) as [[[r1 it] [x|]]|] eqn:S; [| |discriminate].
+  - inversion H; subst.
+    (* the measure is at least 1 in every state *)
+    pose proof (iter_cost_pos c). pose proof (N2Z.is_nonneg (c_retries c)).
+    destruct (g_pc r) as [| | g todo acc b | g acc b | g acc b]; cbn [mu budget_ok] in *;
+      try (pose proof (prod_nonneg c b HB)); try nia; lia.
+  - destruct (program_call c r1 rest) as [[[m y] r2]|] eqn:R; [|discriminate]. inversion H; subst.
+    destruct (program_step_decreases c L r ch r1 it HB HT S) as (D & HB1 & HT1).
+    specialize (IH r1 m ret r' HB1 HT1 R). lia.
+Qed.
+End AnyMemory.
